@@ -245,7 +245,8 @@ theorem rf_getPosForward {j : Journal} (hs : Sorted j) {stats : List (Nat × Chk
     (st' : List (Nat × ChkSt)) (ck : Option Chunk) (pos : Pos) (h : getPosForward j stats p = (st', ck, pos)) :
     (∀ c, ck = some c → c ∈ j ∧ pos.cid = c.id ∧ c.minPos ≤ pos.idx ∧ pos.idx < c.hi ∧
         wflatIdx j pos = wflatIdx j p ∧ st' = rebuild j []) ∧
-    (ck = none → wflatIdx j p = (wflat j).length ∧ wflatIdx j pos = (wflat j).length ∧ RStats j st') := by
+    (ck = none → wflatIdx j p = (wflat j).length ∧ wflatIdx j pos = (wflat j).length ∧ RStats j st' ∧
+        (j ≠ [] → ∃ l ∈ j, pos = ⟨l.id, l.cnt⟩)) := by
   unfold getPosForward at h
   cases hl : j.getLast? with
   | none =>
@@ -253,7 +254,7 @@ theorem rf_getPosForward {j : Journal} (hs : Sorted j) {stats : List (Nat × Chk
     subst this
     simp only [List.getLast?_nil, Prod.mk.injEq] at h
     obtain ⟨rfl, rfl, rfl⟩ := h
-    exact ⟨(by intro c hc; cases hc), fun _ => ⟨rfl, rfl, hst⟩⟩
+    exact ⟨(by intro c hc; cases hc), fun _ => ⟨rfl, rfl, hst, fun h => absurd rfl h⟩⟩
   | some l =>
     rw [hl] at h
     simp only at h
@@ -262,7 +263,8 @@ theorem rf_getPosForward {j : Journal} (hs : Sorted j) {stats : List (Nat × Chk
       rw [hd] at h
       simp only [Prod.mk.injEq] at h
       obtain ⟨rfl, rfl, rfl⟩ := h
-      refine ⟨(by intro c hc; cases hc), fun _ => ⟨?_, rf_wflatIdx_last hs hl (by unfold Chunk.hi; omega), hst⟩⟩
+      refine ⟨(by intro c hc; cases hc), fun _ => ⟨?_, rf_wflatIdx_last hs hl (by unfold Chunk.hi; omega), hst,
+        fun _ => ⟨l, (getLast_max hs hl).1, rfl⟩⟩⟩
       apply wflatIdx_eq_len
       intro c hc
       have := rf_dropWhile_nil hd c hc
@@ -301,7 +303,7 @@ theorem rf_getPosForward {j : Journal} (hs : Sorted j) {stats : List (Nat × Chk
         have hgl : (c0 :: rest).getLast? = some l := by rw [← hd, rf_dropWhile_getLast j _ hne, hl]
         rw [hgl] at n3
         simp only at n3
-        refine ⟨?_, ?_, n2⟩
+        refine ⟨?_, ?_, n2, fun _ => ⟨l, (getLast_max hs hl).1, n3⟩⟩
         · apply rf_dropWhile_len j p.cid p (Nat.le_refl _)
           rw [hd, hstart, n1]
         · rw [n3]; exact rf_wflatIdx_last hs hl (by unfold Chunk.hi; omega)
@@ -356,7 +358,7 @@ def EnsOut (j : Journal) (i : Nat) (r : RIt × Bool) : Prop :=
   r.1.bkwd = false ∧ wIdx j r.1 = i ∧ RWF j r.1 ∧ RSynced r.1 ∧
   (r.2 = false → ∃ c ch, r.1.ci = some c ∧ ch ∈ j ∧ ch.id = c.chunk ∧ c.cached = false ∧ 0 ≤ c.pos ∧
       c.pos < (ch.cnt : Int)) ∧
-  (r.2 = true → r.1.ci = none ∧ i = (wflat j).length)
+  (r.2 = true → r.1.ci = none ∧ i = (wflat j).length ∧ (j ≠ [] → Settled j r.1.pos))
 
 theorem rf_ensure_fwd {j : Journal} (hs : Sorted j) {s : RIt} (hci : s.ci = none) (hb : s.bkwd = false)
     (hst : RStats j s.stats) : EnsOut j (wIdx j s) (rEnsure j s) := by
@@ -368,12 +370,14 @@ theorem rf_ensure_fwd {j : Journal} (hs : Sorted j) {s : RIt} (hci : s.ci = none
   simp only [hci, hb, Bool.false_eq_true, if_false, hg]
   cases ck with
   | none =>
-    obtain ⟨b1, b2, b3⟩ := B rfl
+    obtain ⟨b1, b2, b3, b4⟩ := B rfl
     simp only
-    refine ⟨trivial, ?_, ?_, ?_, (by intro h; cases h), fun _ => ⟨trivial, b1⟩⟩
+    refine ⟨trivial, ?_, ?_, ?_, (by intro h; cases h), fun _ => ⟨trivial, b1, fun hne => ?_⟩⟩
     · simp only [wIdx, rEffPos, RIt.pos]; rw [b1]; exact b2
     · simp only [RWF]; exact b3
     · simp only [RSynced]
+    · obtain ⟨l, hl, hp⟩ := b4 hne
+      exact ⟨l, hl, by simp [RIt.pos, hp], by simp [RIt.pos, hp]⟩
   | some c =>
     obtain ⟨a1, a2, a3, a4, a5, a6⟩ := A c rfl
     simp only
@@ -391,7 +395,7 @@ theorem rf_ensure_fwd {j : Journal} (hs : Sorted j) {s : RIt} (hci : s.ci = none
 
 theorem rf_advance_fwd {j : Journal} (hs : Sorted j) {s : RIt} {c : CIt} {ch : Chunk} (hci : s.ci = some c)
     (hb : s.bkwd = false) (hstats : s.stats = rebuild j []) (hm : ch ∈ j) (hid : ch.id = c.chunk)
-    (hcid : s.cid = ch.id) (h0 : 0 ≤ c.pos) (hend : ch.hi ≤ c.pos.toNat) :
+    (hcid : s.cid = ch.id) (h0 : 0 ≤ c.pos) (hend : ch.hi ≤ c.pos.toNat) (hle : c.pos.toNat ≤ ch.cnt) :
     EnsOut j (wIdx j s) (rAdvance j s) := by
   obtain ⟨cid, idx, ci, bkwd, stats⟩ := s
   simp only at hci hb hstats hcid
@@ -415,8 +419,8 @@ theorem rf_advance_fwd {j : Journal} (hs : Sorted j) {s : RIt} {c : CIt} {ch : C
   · simp only [hl, if_true]
     have heof : eof = true := by
       cases eof <;> simp_all
-    obtain ⟨f1, f2⟩ := e6 heof
-    refine ⟨e1, ?_, ?_, ?_, (by intro h; rw [heof] at h; cases h), fun _ => ⟨f1, f2⟩⟩
+    obtain ⟨f1, f2, _⟩ := e6 heof
+    refine ⟨e1, ?_, ?_, ?_, (by intro h; rw [heof] at h; cases h), fun _ => ⟨f1, f2, fun _ => ⟨ch, hm, rfl, hle⟩⟩⟩
     · simp only [wIdx, rEffPos, f1, RIt.pos]; rw [hid]
     · simp only [RWF, f1]
       have := e3; simp only [RWF, f1] at this; exact this
@@ -427,7 +431,7 @@ theorem rf_advance_fwd {j : Journal} (hs : Sorted j) {s : RIt} {c : CIt} {ch : C
 /-- what forward `rGet`/`rGetLoop` answers from a state with index `i` -/
 def GetOutR (j : Journal) (i : Nat) (synced : Prop) (r : RIt × Option Rec) : Prop :=
   r.2 = (wflat j)[i]? ∧ RWF j r.1 ∧ r.1.bkwd = false ∧ wIdx j r.1 = i ∧ (synced → RSynced r.1) ∧
-  (r.2.isSome → ROnRecord j r.1) ∧ (r.2 = none → r.1.ci = none)
+  (r.2.isSome → ROnRecord j r.1) ∧ (r.2 = none → r.1.ci = none ∧ (j ≠ [] → Settled j r.1.pos))
 
 /-- the open chunk iterator stands on a record: one round of the loop delivers it -/
 theorem rf_getLoop_on {j : Journal} (hs : Sorted j) (f : Nat) {s : RIt} {c : CIt} (hci : s.ci = some c)
@@ -496,7 +500,7 @@ theorem rf_getLoop_fwd {j : Journal} (hs : Sorted j) (f : Nat) {s : RIt} {c : CI
     subst g4a
     simp only
     have hadv := rf_advance_fwd hs (s := ⟨cid, idx, some c', false, rebuild j []⟩) (c := c') (ch := ch) rfl rfl rfl hm
-      (by rw [g1]; exact hid) (by rw [← w2, ← hid]) (by omega) (by unfold Chunk.hi; omega)
+      (by rw [g1]; exact hid) (by rw [← w2, ← hid]) (by omega) (by unfold Chunk.hi; omega) (by omega)
     have hw : wIdx j ⟨cid, idx, some c', false, rebuild j []⟩ = wIdx j ⟨cid, idx, some c, false, rebuild j []⟩ := by
       simp only [wIdx, rEffPos, g1, hp]
     rw [hw] at hadv
@@ -508,9 +512,9 @@ theorem rf_getLoop_fwd {j : Journal} (hs : Sorted j) (f : Nat) {s : RIt} {c : CI
     cases eof with
     | true =>
       simp only [if_true]
-      obtain ⟨f1, f2⟩ := e6 rfl
+      obtain ⟨f1, f2, f3⟩ := e6 rfl
       unfold GetOutR
-      refine ⟨?_, e3, e1, e2, fun _ => e4, (by intro h; cases h), fun _ => f1⟩
+      refine ⟨?_, e3, e1, e2, fun _ => e4, (by intro h; cases h), fun _ => ⟨f1, f3⟩⟩
       rw [f2]; simp
     | false =>
       simp only [Bool.false_eq_true, if_false]
@@ -542,9 +546,9 @@ theorem rf_get_out {j : Journal} (hs : Sorted j) {s : RIt} (hwf : RWF j s) (hb :
     cases eof with
     | true =>
       simp only [if_true]
-      obtain ⟨f1, f2⟩ := e6 rfl
+      obtain ⟨f1, f2, f3⟩ := e6 rfl
       unfold GetOutR
-      refine ⟨?_, e3, e1, e2, fun _ => e4, (by intro h; cases h), fun _ => f1⟩
+      refine ⟨?_, e3, e1, e2, fun _ => e4, (by intro h; cases h), fun _ => ⟨f1, f3⟩⟩
       rw [f2]; simp
     | false =>
       simp only [Bool.false_eq_true, if_false]
@@ -558,7 +562,8 @@ theorem rf_get_out {j : Journal} (hs : Sorted j) {s : RIt} (hwf : RWF j s) (hb :
 /-- forward `Get` of the ranged iterator against the admitted-records abstraction -/
 theorem rGetFwd : RGetFwdSpec := by
   intro j s hs hwf hb
-  exact rf_get_out hs hwf hb
+  obtain ⟨a, b, c, d, e, f, g⟩ := rf_get_out hs hwf hb
+  exact ⟨a, b, c, d, e, f, fun h => (g h).1⟩
 
 theorem rf_next_out {j : Journal} (hs : Sorted j) {s : RIt} (hwf : RWF j s) (hb : s.bkwd = false) :
     RWF j (rNext j s) ∧ (rNext j s).bkwd = false ∧ RSynced (rNext j s) ∧
@@ -574,7 +579,7 @@ theorem rf_next_out {j : Journal} (hs : Sorted j) {s : RIt} (hwf : RWF j s) (hb 
   simp only at g1 g2 g3 g4 g6 g7 ⊢
   cases r with
   | none =>
-    have hci := g7 rfl
+    have hci := (g7 rfl).1
     simp only [hci]
     have : (wflat j).length ≤ i := by have := g1.symm; simpa using this
     refine ⟨g2, g3, by simp [RSynced, hci], ?_⟩
@@ -611,7 +616,7 @@ theorem rf_next_out {j : Journal} (hs : Sorted j) {s : RIt} (hwf : RWF j s) (hb 
     · rw [if_pos hout]
       have hadv := rf_advance_fwd hs (s := ⟨cid, idx, some ⟨c.chunk, c.pos + 1, false⟩, false, rebuild j []⟩)
         (c := ⟨c.chunk, c.pos + 1, false⟩) (ch := ch) rfl rfl rfl hm hid (by rw [← w2, ← hid]) (by simp; omega)
-        (by unfold Chunk.hi; simp only; omega)
+        (by unfold Chunk.hi; simp only; omega) (by simp only; omega)
       have hw : wIdx j ⟨cid, idx, some ⟨c.chunk, c.pos + 1, false⟩, false, rebuild j []⟩ = i + 1 := by
         rw [← hstep]; simp [wIdx, rEffPos, hid]
       rw [hw] at hadv
@@ -624,6 +629,23 @@ theorem rf_next_out {j : Journal} (hs : Sorted j) {s : RIt} (hwf : RWF j s) (hb 
         exact ⟨trivial, w2, ch, hm, hid, w3, by omega, by omega, by omega, by intro h; cases h⟩
       · simp only [RSynced]; exact ⟨by omega, trivial⟩
       · rw [hmin, ← hstep]; simp [wIdx, rEffPos, hid]
+
+/-- after a forward `Get` of a synced iterator the reported position names an existing chunk and an index inside it or
+at its end (what `State()` exports) -/
+theorem rf_get_settled {j : Journal} (hs : Sorted j) {s : RIt} (hwf : RWF j s) (hb : s.bkwd = false)
+    (hsy : RSynced s) (hne : j ≠ []) : Settled j (rGet j s).1.pos := by
+  obtain ⟨_, g2, _, _, g5, g6, g7⟩ := rf_get_out hs hwf hb
+  cases hr : (rGet j s).2 with
+  | none => exact (g7 hr).2 hne
+  | some l =>
+    obtain ⟨c, hc, h0, _⟩ := g6 (by rw [hr]; rfl)
+    have hsy' := g5 hsy
+    unfold RWF at g2; unfold RSynced at hsy'
+    rw [hc] at g2 hsy'
+    obtain ⟨_, e1, ch, hm, he, _, _, _, hcn, _⟩ := g2
+    refine ⟨ch, hm, by simp [RIt.pos, he, e1], ?_⟩
+    simp only [RIt.pos]
+    rw [hsy'.2]; omega
 
 /-- forward `Next` of the ranged iterator -/
 theorem rNextFwd : RNextFwdSpec := by
